@@ -29,8 +29,10 @@ META = {
         'chord kernel: chord table cut to 2 chords (24 key-chord states)',
     ],
     'bounds': {
-        'quick': 'melody: (T,S) in {(1,3),(2,3),(3,3),(2,5)}; chords: T=1 with '
-                 '24 states',
+        'quick': 'melody: (T,S) in {(1,3),(2,3),(3,3),(2,5)} fully symbolic, plus '
+                 'the full-size kernel (128 pitches, 257 states, T=2) with a '
+                 'concrete first frame / transition matrix and the last '
+                 'frame\'s five boundary states symbolic; chords: T=1 with 24 states',
         'thorough': 'melody (3,5),(4,3); chords T=2',
     },
     'outside': ['frame likelihoods, transition models, annotation writing, '
@@ -109,7 +111,51 @@ def h_chord_viterbi(c):
           'returned key-chord path attains the maximum total log-likelihood')
 
 
+def h_melody_viterbi_wide(c):
+  """Full-size state space (128 pitches, 257 states, 2 frames).  The first
+  frame and the transition matrix are concrete (so the 257 back-pointers of
+  frame 1 are computed concretely and include the highest state index 256);
+  the second frame's log-likelihoods of the boundary states {rest,
+  onset/sustain of the lowest and of the highest pitch} are symbolic and every
+  other state is concretely hopeless (-1e6).  The returned path must beat all
+  257 x 5 alternatives."""
+  mi = c.mod('melody_inference')
+  np = c.np
+  P = 128
+  pitches = list(range(P))
+  S = 2 * P + 1
+  keep = [0, 1, P, P + 1, 2 * P]  # rest, on(0), on(127), sus(0), sus(127)
+  first = c.params['first']  # best state of the first frame
+  frame0 = [-3.0 - 0.01 * (i % 7) for i in range(S)]
+  frame0[first] = 0.0
+  frame1 = [-1.0e6] * S
+  for k in keep:
+    frame1[k] = c.real('f1_%d' % k, -50, 50)
+  trans = [[-1.0 - 0.001 * ((i * 7 + j * 3) % 11) for j in range(S)]
+           for i in range(S)]
+  res = mi._melody_viterbi(list(pitches), np.array([frame0, frame1]),
+                           np.array(trans))
+  path = []
+  for ev in res:
+    if ev == mi.REST:
+      path.append(0)
+    else:
+      pitch, onset = ev
+      path.append(pitch + 1 if onset else pitch + 1 + P)
+  c.check(path[1] in keep, 'the last state is one of the boundary states')
+
+  def score(p):
+    return (trans[0][p[0]] + frame0[p[0]] + trans[p[0]][p[1]] + frame1[p[1]])
+
+  mine = score(path)
+  c.check(c.And([mine >= score((a, b)) for a in range(S) for b in keep]),
+          'returned path attains the maximum (all 257 first states x the '
+          'boundary last states; the highest state index 256 included)')
+  c.cover('best first state is the highest state index', path[0] == 2 * P)
+
+
 HARNESSES = {'h_melody_viterbi': h_melody_viterbi,
+             'h_melody_viterbi_wide': h_melody_viterbi_wide,
              'h_chord_viterbi': h_chord_viterbi}
 
 
@@ -123,6 +169,8 @@ def jobs(tier):
   for (t, p) in [(1, 1), (2, 1), (3, 1), (2, 2)]:
     add('h_melody_viterbi', T=t, P=p)
   add('h_chord_viterbi', T=1)
+  add('h_melody_viterbi_wide', first=256, budget=600)
+  add('h_melody_viterbi_wide', first=255, budget=600)
   if tier == 'thorough':
     add('h_melody_viterbi', T=4, P=1, budget=1800)
     add('h_melody_viterbi', T=3, P=2, budget=3000, required=False)
